@@ -1316,6 +1316,8 @@ class Engine:
         result = None
         if contract.result is not None:
             result = self.fresh(f"ret_{fr.qual.split('.')[-1]}", contract.result)
+        for gname, gtype in contract.exposes.items():
+            env[gname] = self.fresh(f"ghost_{gname}", gtype)
         for name, ens in contract.ensures:
             self.assume(self.spec_eval(ens, dict(env, result=result), old_env=pre_env, contract=contract))
         # write back modified arguments to the caller's objects
